@@ -1048,7 +1048,7 @@ static void mc_free(void *p, void *pc)
         report2("double-free", (uintptr_t)p, pc, (*freed_by)[(uintptr_t)p]);
     }
     // a free is a write to the block
-    plain((uintptr_t)p, n > 64 ? 64 : (long)n, true, pc);
+    plain((uintptr_t)p, n > 2048 ? 2048 : (long)n, true, pc);
     RtGuard g;
     clear_shadow((uintptr_t)p, n);
     (*quarantine)[(uintptr_t)p] = n;
